@@ -600,11 +600,15 @@ it3
                     else { let j = choose|j: int| 0 <= j < b.len() && b[j] == m[k]; assert(t0.separators@[c]@[j] < nv(t0)); }
                 }
             }
+            assert(sets_ok(t.snode@)) by {
+                assert forall|c: int| 0 <= c < t.snode@.len() implies (#[trigger] t.snode@[c])@.no_duplicates() && t.snode@[c]@.len() < 0x8000_0000 by { lemma_nodup_bounded(t.snode@[c]@, nv(t0)); }
+            }
         }
 //@after "let (rows, cols) = compute_reduced_clique_graph("
         proof {
             assert forall|c: int| 0 <= c < tn(t0) implies (#[trigger] t.separators@[c])@.len() < 0x8000_0000 by {
-                let j = choose|j: int| 0 <= j < tn(t0) && t.separators@[c]@ == t2.separators@[j]@;
+                assert(is_one_of(t.separators@[c]@, t2.separators@));
+                let j = choose|j: int| 0 <= j < t2.separators@.len() && (#[trigger] t2.separators@[j])@ == t.separators@[c]@;
                 assert(t0.separators@[j]@.no_duplicates());
                 assert forall|k: int| 0 <= k < t0.separators@[j]@.len() implies #[trigger] t0.separators@[j]@[k] < nv(t0) by { }
                 lemma_nodup_bounded(t0.separators@[j]@, nv(t0));
@@ -977,7 +981,66 @@ it6
             }
         }
 //@end
-    #[verifier::external_body] fn post_process_merge(&mut self, t: &mut SuperNodeTree) { unimplemented!() }
+//@fn file=src/solver/chordal/merge/clique_graph.rs in="MergeStrategy for CliqueGraphMergeStrategy" name=post_process_merge rules=posall,R17,zipidx:2=m;3=m
+//@contract
+        ensures
+            // the post order lists n_cliques cliques; with a single clique left it is the non-empty one and no tree is built
+            final(t).n_cliques == old(t).n_cliques, tn(*final(t)) == tn(*old(t)),
+            old(t).n_cliques == 1 ==> final(t).snode_post@.len() == 1 && final(t).snode@[final(t).snode_post@[0] as int]@.len() > 0,
+//@pre
+        let ghost t0 = *t;
+        let ghost mut t2 = *t;
+        let ghost mut t3 = *t;
+        proof { lemma_cnt_ne_bounds(t.snode@, tn(*t)); }
+//@iter 1
+it1
+//@loop 1
+            invariant
+                t.snode@ == t0.snode@, it1.seq().len() == t0.snode@.len(), forall|c: int| 0 <= c < t0.snode@.len() ==> *(#[trigger] it1.seq()[c]) == t0.snode@[c],
+                pa_i1 == it1.index@, t0.snode@.len() < 0x8000_0000, pa_out1@.len() == cnt_ne(t0.snode@, it1.index@ as int),
+                forall|i: int| 0 <= i < pa_out1@.len() ==> #[trigger] pa_out1@[i] < it1.index@ && t0.snode@[pa_out1@[i] as int]@.len() > 0,
+//@body_start 1
+            let ghost po_b = pa_out1@;
+            proof { assert(*x == t0.snode@[it1.index@ as int]); }
+//@body_end 1
+            proof { assert forall|i: int| 0 <= i < pa_out1@.len() implies #[trigger] pa_out1@[i] < it1.index@ + 1 && t0.snode@[pa_out1@[i] as int]@.len() > 0 by { if i < po_b.len() { assert(pa_out1@[i] == po_b[i]); } } }
+//@before "if t.n_cliques > 1"
+        proof {
+            assert(t.snode_post@.len() == t0.n_cliques);
+            assert forall|c: int| 0 <= c < tn(*t) implies (#[trigger] t.snode@[c])@.len() < 0x8000_0000 && t.separators@[c]@.len() < 0x8000_0000 by { lemma_sn_small(t0, c); assert(t0.separators@[c]@.len() < 0x8000_0000); }
+            assert(pp_mid(*t));
+            assert(sn_ok(*t));
+            assert(self.core(*t));
+        }
+//@before_loop 2
+        proof { t2 = *t; assert(pp_mid(t2) && t2.n_cliques == t0.n_cliques && t2.post == t0.post && tn(t2) == tn(t0)); }
+//@loop 2
+            invariant
+                r14_n1 == tn(t2), t.snode@.len() == tn(t2), t.separators == t2.separators, t.snode_post == t2.snode_post, t.snode_parent == t2.snode_parent, t.snode_children == t2.snode_children,
+                t.post == t2.post, t.n_cliques == t2.n_cliques, t.nblk == t2.nblk,
+                forall|c: int| 0 <= c < tn(t2) ==> (#[trigger] t.snode@[c])@.len() == t2.snode@[c]@.len(),
+//@body_start 2
+            let ghost sn_b = t.snode@;
+//@body_end 2
+            proof { assert forall|c: int| 0 <= c < tn(t2) implies (#[trigger] t.snode@[c])@.len() == t2.snode@[c]@.len() by { if c != $var2 { assert(t.snode@[c] == sn_b[c]); } else { assert(same_members(t.snode@[c]@, sn_b[c]@)); } } }
+//@before_loop 3
+        proof { t3 = *t; }
+//@loop 3
+            invariant
+                r14_n2 == tn(t2), t.separators@.len() == tn(t2), t.snode == t3.snode, t.snode_post == t2.snode_post, t.snode_parent == t2.snode_parent, t.snode_children == t2.snode_children,
+                t.post == t2.post, t.n_cliques == t2.n_cliques, t.nblk == t2.nblk,
+                forall|c: int| 0 <= c < tn(t2) ==> (#[trigger] t.separators@[c])@.len() == t2.separators@[c]@.len(),
+//@body_start 3
+            let ghost sp_b = t.separators@;
+//@body_end 3
+            proof { assert forall|c: int| 0 <= c < tn(t2) implies (#[trigger] t.separators@[c])@.len() == t2.separators@[c]@.len() by { if c != $var3 { assert(t.separators@[c] == sp_b[c]); } else { assert(same_members(t.separators@[c]@, sp_b[c]@)); } } }
+//@post
+        proof {
+            assert forall|c: int| 0 <= c < tn(*t) implies (#[trigger] t.snode@[c])@.len() < 0x8000_0000 && t.separators@[c]@.len() < 0x8000_0000 by {
+                assert(t.snode@[c]@.len() == t2.snode@[c]@.len()); assert(t3.snode@[c]@.len() == t2.snode@[c]@.len());
+            }
+        }
+//@end
 }
 pub open spec fn rb_ok(rb: Option<Option<(usize, usize)>>, E: CscMatrix<isize>, T: Adj, sn: Seq<VertexSet>) -> bool {
     match rb { Some(v) => (match v { Some(c) => stored(E, c.0 as int, c.1 as int) && permissible(T, sn, c.0, c.1), None => false }), None => true }
@@ -1149,15 +1212,24 @@ pub proof fn lemma_cnt_ne_all(sn: Seq<VertexSet>, k: int)
     ensures cnt_ne(sn, k) == k,
     decreases k,
 { if k > 0 { lemma_cnt_ne_all(sn, k - 1); } }
-// ASSUMED (for the moment): compute_reduced_clique_graph
-#[verifier::external_body]
-fn compute_reduced_clique_graph(separators: &mut [VertexSet], snode: &[VertexSet]) -> (r: (Vec<usize>, Vec<usize>))
-    requires old(separators)@.len() == snode@.len(),
-    ensures
-        final(separators)@.len() == old(separators)@.len(),
-        forall|i: int| 0 <= i < old(separators)@.len() ==> exists|j: int| 0 <= j < old(separators)@.len() && (#[trigger] final(separators)@[i])@ == old(separators)@[j]@,
-        r.0@.len() == r.1@.len(), forall|k: int| 0 <= k < r.0@.len() ==> r.1@[k] < #[trigger] r.0@[k] && r.0@[k] < snode@.len(),
-{ unimplemented!() }
+
+// what post_process_merge knows before the final sorting of the sets
+pub open spec fn pp_mid(t: SuperNodeTree) -> bool {
+    &&& dims_ok(t) && 1 <= t.n_cliques <= tn(t) && t.snode_post@.len() == t.n_cliques
+    &&& forall|i: int| 0 <= i < t.snode_post@.len() ==> #[trigger] t.snode_post@[i] < tn(t)
+    &&& forall|c: int| 0 <= c < tn(t) ==> (#[trigger] t.snode@[c])@.len() < 0x8000_0000 && t.separators@[c]@.len() < 0x8000_0000
+    &&& (t.n_cliques == 1 ==> t.snode@[t.snode_post@[0] as int]@.len() > 0)
+}
+impl CliqueGraphMergeStrategy {
+    // ASSUMED as a whole (its parts clique_intersections, kruskal, determine_parent_cliques, assign_children, split_cliques are under
+    // contract, the head and the tail of its body are verified as the slices ctg_build / ctg_split below).  NOT proved: the preconditions of
+    // post_order (unit chordal_merge D2) and of split_cliques - see the header (open obligations O3..O5)
+    #[verifier::external_body]
+    fn clique_tree_from_graph(&mut self, t: &mut SuperNodeTree)
+        requires old(self).core(*old(t)), old(t).n_cliques > 1,
+        ensures pp_mid(*final(t)), final(t).n_cliques == old(t).n_cliques, final(t).post == old(t).post, tn(*final(t)) == tn(*old(t)),
+    { unimplemented!() }
+}
 // the neighbours of a key are clique numbers
 pub proof fn lemma_nbrs_in_range(T: Adj, n: int, a: usize)
     requires tab_ok(T, n), T.contains_key(a),
@@ -1384,11 +1456,19 @@ pub open spec fn kruskal_post(E0: CscMatrix<isize>, E1: CscMatrix<isize>, num_cl
 //@body_end 2
             proof {
                 assert forall|k: int, c: int| #[trigger] in_col(E0, k, c) && (c < gc || (c == gc && k < gj + 1)) implies E.nzval@[k] == idim(snd@[E0.rowval@[k] as int]@, snd@[c]@) by {
-                    if k != gj { assert(E.nzval@[k] == nz_b[k]); if c > gc { } else if c == gc { } else { } lemma_col_unique2(E0, k, c, gj, gc); }
+                    if k != gj { assert(E.nzval@[k] == nz_b[k]); }
                     else { lemma_col_unique(E0, k, c, gc); }
                 }
             }
 //@end
+pub proof fn lemma_canon_same(A: CscMatrix<isize>, B: CscMatrix<isize>)
+    requires canon(A), B.m == A.m, B.n == A.n, B.colptr == A.colptr, B.rowval == A.rowval, B.nzval@.len() == A.nzval@.len(),
+    ensures canon(B),
+{
+    assert forall|c: int, k1: int, k2: int| #![trigger in_col(B, k1, c), in_col(B, k2, c)] in_col(B, k1, c) && in_col(B, k2, c) && k1 < k2 implies B.rowval@[k1] < B.rowval@[k2] by {
+        assert(in_col(A, k1, c) && in_col(A, k2, c));
+    }
+}
 pub proof fn lemma_col_unique2(A: CscMatrix<isize>, k1: int, c1: int, k2: int, c2: int)
     requires canon(A), in_col(A, k1, c1), in_col(A, k2, c2), c1 < c2,
     ensures k1 < k2,
@@ -1402,6 +1482,8 @@ pub proof fn lemma_col_unique2(A: CscMatrix<isize>, k1: int, c1: int, k2: int, c
         // x is listed iff (c, x) is a stored non-zero (x < c) or (x, c) is stored (x > c, looked at only if c is not the last column)
         forall|x: usize| #[trigger] r@.contains(x) <==> (x < c && nz(ent(*edges, c as int, x as int)) is Some) || (c < edges.n - 1 && stored(*edges, x as int, c as int)),
         forall|i: int| 0 <= i < r@.len() ==> #[trigger] r@[i] < edges.n,
+//@pre
+    let ghost mut nb1: Seq<usize> = Seq::empty();
 //@loop 1
             invariant
                 canon(*edges), edges.m == edges.n, c < edges.n, n == edges.n,
@@ -1421,8 +1503,8 @@ pub proof fn lemma_col_unique2(A: CscMatrix<isize>, k1: int, c1: int, k2: int, c
                 }
             }
 //@before "if c < (n - 1)"
-    let ghost nb1 = neighbors@;
     proof {
+        nb1 = neighbors@;
         if c == 0 { assert forall|x: usize| #[trigger] nb1.contains(x) <==> (x < c && nz(ent(*edges, c as int, x as int)) is Some) by { } }
         assert(edges.colptr@[c as int] <= edges.colptr@[c + 1] <= edges.colptr@[edges.n as int]);
     }
@@ -1502,7 +1584,8 @@ pub open spec fn split_pre(parent: Seq<usize>, post: Seq<usize>, nc: int, n: int
         forall|j: int| 0 <= j < num_cliques - 1 ==> (#[trigger] final(snode)@[snode_post@[j] as int])@ ==
             diff_k(old(snode)@[snode_post@[j] as int]@, final(separators)@[snode_post@[j] as int]@, old(snode)@[snode_post@[j] as int]@.len() as int),
         // the root and the cliques outside the tree are not touched
-        forall|c: int| 0 <= c < old(snode)@.len() && !in_pre(snode_post@, num_cliques - 1, c as usize) ==> #[trigger] final(snode)@[c] == old(snode)@[c] && final(separators)@[c] == old(separators)@[c],
+        forall|c: usize| c < old(snode)@.len() && !in_pre(snode_post@, num_cliques - 1, c) ==> #[trigger] final(snode)@[c as int] == old(snode)@[c as int],
+        forall|c: usize| c < old(snode)@.len() && !in_pre(snode_post@, num_cliques - 1, c) ==> #[trigger] final(separators)@[c as int] == old(separators)@[c as int],
 //@pre
     let ghost sn0 = snode@;
     let ghost sp0 = separators@;
@@ -1513,7 +1596,8 @@ pub open spec fn split_pre(parent: Seq<usize>, post: Seq<usize>, nc: int, n: int
             forall|c: int| 0 <= c < n_ ==> (#[trigger] sn0[c])@.no_duplicates(),
             forall|i: int| 0 <= i < $var1 ==> (#[trigger] separators@[snode_post@[i] as int])@ == inter(sn0[snode_post@[i] as int]@, sn0[snode_parent@[snode_post@[i] as int] as int]@),
             forall|i: int| 0 <= i < $var1 ==> (#[trigger] snode@[snode_post@[i] as int])@ == diff_k(sn0[snode_post@[i] as int]@, separators@[snode_post@[i] as int]@, sn0[snode_post@[i] as int]@.len() as int),
-            forall|c: int| 0 <= c < n_ && !in_pre(snode_post@, $var1 as int, c as usize) ==> #[trigger] snode@[c] == sn0[c] && separators@[c] == sp0[c],
+            forall|c: usize| c < n_ && !in_pre(snode_post@, $var1 as int, c) ==> #[trigger] snode@[c as int] == sn0[c as int],
+            forall|c: usize| c < n_ && !in_pre(snode_post@, $var1 as int, c) ==> #[trigger] separators@[c as int] == sp0[c as int],
 //@body_start 1
         let ghost gj = $var1 as int;
         let ghost sn_b = snode@;
@@ -1564,12 +1648,636 @@ it2
             assert forall|i: int| 0 <= i < gj + 1 implies (#[trigger] snode@[snode_post@[i] as int])@ == diff_k(sn0[snode_post@[i] as int]@, separators@[snode_post@[i] as int]@, sn0[snode_post@[i] as int]@.len() as int) by {
                 if i < gj { assert(snode_post@[i] != snode_post@[gj]); assert(snode@[snode_post@[i] as int] == sn_b[snode_post@[i] as int]); assert(separators@[snode_post@[i] as int] == sp_b[snode_post@[i] as int]); }
             }
-            assert forall|c: int| 0 <= c < n_ && !in_pre(snode_post@, gj + 1, c as usize) implies #[trigger] snode@[c] == sn0[c] && separators@[c] == sp0[c] by {
-                lemma_in_pre_step(snode_post@, gj, c as usize);
+            assert forall|c: usize| c < n_ && !in_pre(snode_post@, gj + 1, c) implies #[trigger] snode@[c as int] == sn0[c as int] by {
+                lemma_in_pre_step(snode_post@, gj, c);
                 assert(c != gc);
-                assert(snode@[c] == sn_b[c] && separators@[c] == sp_b[c]);
+                assert(snode@[c as int] == sn_b[c as int]);
+            }
+            assert forall|c: usize| c < n_ && !in_pre(snode_post@, gj + 1, c) implies #[trigger] separators@[c as int] == sp0[c as int] by {
+                lemma_in_pre_step(snode_post@, gj, c);
+                assert(c != gc);
+                assert(separators@[c as int] == sp_b[c as int]);
             }
         }
+//@end
+
+// the edge between a and b is marked as a tree edge
+pub open spec fn marked(E: CscMatrix<isize>, a: usize, b: usize) -> bool { ent(E, mx(a, b), mn(a, b)) == Some(-1isize) }
+// assign children to cliques along the spanning tree.  PARTIAL CORRECTNESS ONLY: termination needs the marked edges to be acyclic (kruskal's
+// es_forest) and is not proved (`exec_allows_no_decreases_clause`); with a cycle of marked edges the loop does not terminate
+//@fn file=src/solver/chordal/merge/clique_graph.rs name=assign_children rules=R18 attrs="#[verifier::exec_allows_no_decreases_clause]"
+//@contract
+    requires canon(*edges), edges.m == edges.n, old(snode_parent)@.len() == edges.n, old(snode_children)@.len() == edges.n, c < edges.n,
+    ensures
+        final(snode_parent)@.len() == old(snode_parent)@.len(), final(snode_children)@.len() == old(snode_children)@.len(),
+        // every new parent pointer / child entry runs along a marked edge of the clique graph
+        forall|x: int| 0 <= x < old(snode_parent)@.len() ==> #[trigger] final(snode_parent)@[x] == old(snode_parent)@[x] || (final(snode_parent)@[x] < edges.n && marked(*edges, final(snode_parent)@[x], x as usize)),
+        forall|q: int, v: usize| 0 <= q < old(snode_children)@.len() && #[trigger] final(snode_children)@[q]@.contains(v) ==> old(snode_children)@[q]@.contains(v) || (v < edges.n && marked(*edges, q as usize, v)),
+//@pre
+    let ghost par0 = snode_parent@;
+    let ghost ch0 = snode_children@;
+    let ghost n_ = edges.n as int;
+//@loop 1
+        invariant
+            canon(*edges), edges.m == edges.n, n_ == edges.n, snode_parent@.len() == n_, snode_children@.len() == n_, par0.len() == n_, ch0.len() == n_,
+            forall|i: int| 0 <= i < stack@.len() ==> #[trigger] stack@[i] < n_,
+            forall|x: int| 0 <= x < n_ ==> #[trigger] snode_parent@[x] == par0[x] || (snode_parent@[x] < n_ && marked(*edges, snode_parent@[x], x as usize)),
+            forall|q: int, v: usize| 0 <= q < n_ && #[trigger] snode_children@[q]@.contains(v) ==> ch0[q]@.contains(v) || (v < n_ && marked(*edges, q as usize, v)),
+//@body_start 1
+        proof { assert(c < n_); }
+//@before_loop 2
+        let ghost nb = neighbors@;
+//@iter 2
+it2
+//@loop 2
+            invariant
+                canon(*edges), edges.m == edges.n, n_ == edges.n, snode_parent@.len() == n_, snode_children@.len() == n_, par0.len() == n_, ch0.len() == n_, c < n_,
+                it2.seq() == nb, forall|i: int| 0 <= i < nb.len() ==> #[trigger] nb[i] < n_,
+                forall|i: int| 0 <= i < stack@.len() ==> #[trigger] stack@[i] < n_,
+                forall|x: int| 0 <= x < n_ ==> #[trigger] snode_parent@[x] == par0[x] || (snode_parent@[x] < n_ && marked(*edges, snode_parent@[x], x as usize)),
+                forall|q: int, v: usize| 0 <= q < n_ && #[trigger] snode_children@[q]@.contains(v) ==> ch0[q]@.contains(v) || (v < n_ && marked(*edges, q as usize, v)),
+//@body_start 2
+            let ghost par_b = snode_parent@;
+            let ghost ch_b = snode_children@;
+            let ghost st_b = stack@;
+            proof { assert(n == nb[it2.index@ as int]); }
+//@body_end 2
+            proof {
+                assert forall|x: int| 0 <= x < n_ implies #[trigger] snode_parent@[x] == par0[x] || (snode_parent@[x] < n_ && marked(*edges, snode_parent@[x], x as usize)) by {
+                    if snode_parent@[x] != par_b[x] { assert(x == n && snode_parent@[x] == c); assert(mx(c, n) == mx(n, c) && mn(c, n) == mn(n, c)); }
+                }
+                assert forall|q: int, v: usize| 0 <= q < n_ && #[trigger] snode_children@[q]@.contains(v) implies ch0[q]@.contains(v) || (v < n_ && marked(*edges, q as usize, v)) by {
+                    if snode_children@[q] != ch_b[q] { assert(q == c); lemma_ins1(ch_b[q]@, n); assert(snode_children@[q]@ == ins1(ch_b[q]@, n)); if v != n { assert(ch_b[q]@.contains(v)); } }
+                    else { assert(ch_b[q]@.contains(v)); }
+                }
+                assert forall|i: int| 0 <= i < stack@.len() implies #[trigger] stack@[i] < n_ by { if i < st_b.len() { assert(stack@[i] == st_b[i]); } }
+            }
+//@end
+
+// Given the spanning tree marked in `E`, determine a parent structure for the clique tree: the root is the first clique that contains the
+// vertex of highest order
+//@fn file=src/solver/chordal/merge/clique_graph.rs name=determine_parent_cliques rules=R3
+//@contract
+    requires
+        canon(*E), E.m == E.n, old(snode_parent)@.len() == E.n, old(snode_children)@.len() == E.n, cliques@.len() == E.n,
+        post@.len() >= 1,      // `post.last().unwrap()`
+        E.n >= 1,              // no clique contains the vertex: c stays 0 and assign_children starts at clique 0
+    ensures
+        final(snode_parent)@.len() == old(snode_parent)@.len(), final(snode_children)@.len() == old(snode_children)@.len(),
+        // the root: the first clique containing the last vertex of the post order gets NO_PARENT; every other new parent pointer runs
+        // along a marked edge
+        forall|x: int| 0 <= x < old(snode_parent)@.len() ==> #[trigger] final(snode_parent)@[x] == old(snode_parent)@[x]
+            || (final(snode_parent)@[x] == NO_PARENT && is_first_with(cliques@, post@.last(), x))
+            || (final(snode_parent)@[x] < E.n && marked(*E, final(snode_parent)@[x], x as usize)),
+        (exists|x: int| 0 <= x < cliques@.len() && #[trigger] cliques@[x]@.contains(post@.last())) ==> exists|x: int| #[trigger] is_first_with(cliques@, post@.last(), x) &&
+            (final(snode_parent)@[x] == NO_PARENT || (final(snode_parent)@[x] < E.n && marked(*E, final(snode_parent)@[x], x as usize))),
+//@pre
+    let ghost par0 = snode_parent@;
+    let ghost mut groot: int = -1;
+//@iter 1
+it1
+//@loop 1
+        invariant_except_break
+            c == 0, snode_parent@ == par0, forall|x: int| 0 <= x < it1.index@ ==> !(#[trigger] cliques@[x])@.contains(*v),
+        invariant
+            k_ctr == it1.index@, *v == post@.last(), snode_parent@.len() == par0.len(), par0.len() == cliques@.len(), cliques@.len() <= usize::MAX,
+            it1.seq().len() == cliques@.len(), forall|x: int| 0 <= x < cliques@.len() ==> *(#[trigger] it1.seq()[x]) == cliques@[x], groot == -1,
+        ensures
+            c < cliques@.len() || cliques@.len() == 0, snode_parent@.len() == par0.len(),
+            (forall|x: int| 0 <= x < cliques@.len() ==> !(#[trigger] cliques@[x])@.contains(*v)) ==> snode_parent@ == par0,
+            (exists|x: int| 0 <= x < cliques@.len() && #[trigger] cliques@[x]@.contains(*v)) ==> is_first_with(cliques@, *v, c as int) && snode_parent@ == par0.update(c as int, NO_PARENT),
+//@body_start 1
+        proof { assert(*clique == cliques@[it1.index@ as int]); }
+//@before "break;"
+            proof { assert(is_first_with(cliques@, *v, k as int)); }
+//@post
+    proof {
+        if exists|x: int| 0 <= x < cliques@.len() && #[trigger] cliques@[x]@.contains(post@.last()) {
+            let x = choose|x: int| #[trigger] is_first_with(cliques@, post@.last(), x) && true;
+        }
+    }
+//@end
+pub open spec fn is_first_with(cl: Seq<VertexSet>, v: usize, x: int) -> bool { 0 <= x < cl.len() && cl[x]@.contains(v) && forall|y: int| 0 <= y < x ==> !(#[trigger] cl[y])@.contains(v) }
+
+// ---- clique_tree_from_graph: its body in two statement slices; DROPPED between them: the call `post_order(&mut t.snode_post, ..)`,
+// whose preconditions (unit chordal_merge) are NOT established here (open obligations O3, O4) ----
+impl CliqueGraphMergeStrategy {
+// head: intersection weights, spanning forest, root and parent pointers
+//@fn file=src/solver/chordal/merge/clique_graph.rs in="impl CliqueGraphMergeStrategy" name=clique_tree_from_graph as=ctg_build from="clique_intersections(&mut self.edges, &t.snode);" to="determine_parent_cliques(" header="fn ctg_build(&mut self, t: &mut SuperNodeTree)"
+//@contract
+        requires old(self).core(*old(t)), old(t).n_cliques >= 1,
+        ensures
+            final(t).snode == old(t).snode, final(t).separators == old(t).separators, final(t).post == old(t).post, final(t).n_cliques == old(t).n_cliques, final(t).snode_post == old(t).snode_post,
+            final(t).snode_parent@.len() == tn(*old(t)), final(t).snode_children@.len() == tn(*old(t)),
+            // the pattern of the clique graph stays; the marked edges (-1) are the accepted edges of a spanning forest (kruskal_post)
+            final(self).edges.colptr == old(self).edges.colptr, final(self).edges.rowval == old(self).edges.rowval, canon(final(self).edges),
+            final(self).adjacency_table == old(self).adjacency_table,
+            // every new parent pointer is NO_PARENT at the root (first clique containing the vertex of highest order) or runs along a marked edge
+            forall|x: int| 0 <= x < tn(*old(t)) ==> #[trigger] final(t).snode_parent@[x] == old(t).snode_parent@[x]
+                || (final(t).snode_parent@[x] == NO_PARENT && is_first_with(old(t).snode@, old(t).post@.last(), x))
+                || (final(t).snode_parent@[x] < tn(*old(t)) && marked(final(self).edges, final(t).snode_parent@[x], x as usize)),
+//@pre
+        let ghost E0 = self.edges;
+        proof { lemma_cnt_ne_bounds(t.snode@, tn(*t)); assert forall|c: int| 0 <= c < t.snode@.len() implies (#[trigger] t.snode@[c])@.len() < 0x8000_0000 by { lemma_sn_small(*t, c); } }
+//@after "clique_intersections(&mut self.edges, &t.snode);"
+        let ghost E1 = self.edges;
+        proof { lemma_canon_same(E0, E1); }
+//@after "kruskal(&mut self.edges, t.n_cliques);"
+        proof { lemma_canon_same(E1, self.edges); }
+//@end
+// tail: the separators are cleared and rebuilt as intersections with the parent
+//@fn file=src/solver/chordal/merge/clique_graph.rs in="impl CliqueGraphMergeStrategy" name=clique_tree_from_graph as=ctg_split rules=R17,zipidx:1=m from="t.separators.iter_mut().for_each(|set| set.clear());" to="split_cliques(" header="fn ctg_split(&mut self, t: &mut SuperNodeTree)"
+//@contract
+        requires
+            dims_ok(*old(t)), forall|c: int| 0 <= c < tn(*old(t)) ==> (#[trigger] old(t).snode@[c])@.no_duplicates(),
+            // NOT established by the head: every clique of order < n_cliques - 1 has a parent that comes later in the post order
+            split_pre(old(t).snode_parent@, old(t).snode_post@, old(t).n_cliques as int, tn(*old(t))),
+        ensures
+            *final(self) == *old(self), tn(*final(t)) == tn(*old(t)), final(t).separators@.len() == tn(*old(t)),
+            // C17: each clique's separator is its intersection with its parent clique, its supernode the rest; the root keeps its vertices, its separator is empty
+            forall|j: int| 0 <= j < old(t).n_cliques - 1 ==> (#[trigger] final(t).separators@[old(t).snode_post@[j] as int])@ ==
+                inter(old(t).snode@[old(t).snode_post@[j] as int]@, old(t).snode@[old(t).snode_parent@[old(t).snode_post@[j] as int] as int]@),
+            forall|j: int| 0 <= j < old(t).n_cliques - 1 ==> (#[trigger] final(t).snode@[old(t).snode_post@[j] as int])@ ==
+                diff_k(old(t).snode@[old(t).snode_post@[j] as int]@, final(t).separators@[old(t).snode_post@[j] as int]@, old(t).snode@[old(t).snode_post@[j] as int]@.len() as int),
+            forall|c: usize| c < tn(*old(t)) && !in_pre(old(t).snode_post@, old(t).n_cliques - 1, c) ==> #[trigger] final(t).snode@[c as int] == old(t).snode@[c as int],
+            forall|c: usize| c < tn(*old(t)) && !in_pre(old(t).snode_post@, old(t).n_cliques - 1, c) ==> (#[trigger] final(t).separators@[c as int])@.len() == 0,
+            final(t).snode_parent == old(t).snode_parent, final(t).snode_post == old(t).snode_post, final(t).post == old(t).post, final(t).n_cliques == old(t).n_cliques,
+//@pre
+        let ghost t0 = *t;
+//@loop 1
+            invariant
+                r14_n1 == tn(t0), dims_ok(t0), t.separators@.len() == tn(t0), t.snode == t0.snode, t.snode_parent == t0.snode_parent, t.snode_post == t0.snode_post, t.post == t0.post,
+                t.n_cliques == t0.n_cliques, t.snode_children == t0.snode_children, t.nblk == t0.nblk,
+                forall|c: int| 0 <= c < $var1 ==> (#[trigger] t.separators@[c])@.len() == 0,
+//@body_start 1
+            let ghost sp_b = t.separators@;
+//@body_end 1
+            proof { assert forall|c: int| 0 <= c < $var1 + 1 implies (#[trigger] t.separators@[c])@.len() == 0 by { if c < $var1 { assert(t.separators@[c] == sp_b[c]); } } }
+//@end
+}
+
+// ===================== the reduced clique graph =====================
+// two duplicate-free lists of equal length, the first contained in the second: the second is contained in the first
+pub proof fn lemma_full_subset(a: Seq<usize>, b: Seq<usize>)
+    requires a.no_duplicates(), b.no_duplicates(), a.len() == b.len(), forall|i: int| 0 <= i < a.len() ==> b.contains(#[trigger] a[i]),
+    ensures forall|j: int| 0 <= j < b.len() ==> a.contains(#[trigger] b[j]),
+    decreases b.len(),
+{
+    if b.len() > 0 {
+        let last = b.last();
+        let b2 = b.drop_last();
+        lemma_rm(a, last);
+        let a2 = rm(a, last);
+        assert forall|i: int| 0 <= i < a2.len() implies b2.contains(#[trigger] a2[i]) by {
+            assert(a2.contains(a2[i]));
+            assert(a.contains(a2[i]) && a2[i] != last);
+            let k = choose|k: int| 0 <= k < a.len() && a[k] == a2[i];
+            assert(b.contains(a[k]));
+            let j = choose|j: int| 0 <= j < b.len() && b[j] == a2[i];
+            assert(j < b.len() - 1);
+            assert(b2[j] == a2[i]);
+        }
+        assert(b2.no_duplicates()) by { assert forall|i: int, j: int| 0 <= i < b2.len() && 0 <= j < b2.len() && i != j implies b2[i] != b2[j] by { assert(b[i] != b[j]); } }
+        if !a.contains(last) { lemma_nodup_sub_len(a2, b2); assert(false); }
+        lemma_full_subset(a2, b2);
+        assert forall|j: int| 0 <= j < b.len() implies a.contains(#[trigger] b[j]) by {
+            if j < b.len() - 1 { assert(b2[j] == b[j]); assert(a2.contains(b2[j])); }
+        }
+    }
+}
+// s3 is the intersection of s1 and s2, as sets
+pub open spec fn is_inter(s1: Seq<usize>, s2: Seq<usize>, s3: Seq<usize>) -> bool { forall|x: usize| #[trigger] s3.contains(x) <==> s1.contains(x) && s2.contains(x) }
+pub proof fn lemma_inter_members(a: Seq<usize>, b: Seq<usize>)
+    requires a.no_duplicates(),
+    ensures inter(a, b).no_duplicates(), forall|x: usize| #[trigger] inter(a, b).contains(x) <==> a.contains(x) && b.contains(x),
+{
+    lemma_inter_nodup(a, b, a.len() as int);
+    lemma_inter_k(a, b, a.len() as int);
+    let it = inter(a, b);
+    assert forall|x: usize| #[trigger] it.contains(x) <==> a.contains(x) && b.contains(x) by {
+        if it.contains(x) { let i = choose|i: int| 0 <= i < it.len() && it[i] == x; assert(a.contains(it[i]) && b.contains(it[i])); }
+        if a.contains(x) && b.contains(x) { let j = choose|j: int| 0 <= j < a.len() && a[j] == x; assert(it.contains(a[j])); }
+    }
+}
+// if s3 is the intersection, it is exactly as long as the list of common members and not longer than either set
+pub proof fn lemma_is_inter_len(sa: Seq<usize>, sb: Seq<usize>, s3: Seq<usize>)
+    requires sa.no_duplicates(), sb.no_duplicates(), s3.no_duplicates(), is_inter(sa, sb, s3),
+    ensures s3.len() == inter(sa, sb).len(), s3.len() <= sb.len(), s3.len() <= sa.len(),
+{
+    lemma_inter_members(sa, sb);
+    let it = inter(sa, sb);
+    assert forall|i: int| 0 <= i < it.len() implies s3.contains(#[trigger] it[i]) by { assert(it.contains(it[i])); }
+    assert forall|i: int| 0 <= i < s3.len() implies it.contains(#[trigger] s3[i]) by { assert(s3.contains(s3[i])); }
+    lemma_nodup_sub_len(it, s3); lemma_nodup_sub_len(s3, it);
+    assert forall|i: int| 0 <= i < s3.len() implies sb.contains(#[trigger] s3[i]) by { assert(s3.contains(s3[i])); }
+    assert forall|i: int| 0 <= i < s3.len() implies sa.contains(#[trigger] s3[i]) by { assert(s3.contains(s3[i])); }
+    lemma_nodup_sub_len(s3, sb); lemma_nodup_sub_len(s3, sa);
+}
+pub proof fn lemma_inter_k_mono(a: Seq<usize>, b: Seq<usize>, i: int, k: int)
+    requires 0 <= i <= k <= a.len(),
+    ensures inter_k(a, b, i).len() <= inter_k(a, b, k).len(),
+    decreases k - i,
+{ if i < k { lemma_inter_k_mono(a, b, i, k - 1); } }
+// Check if s1 n s2 == s3
+//@fn file=src/solver/chordal/merge/clique_graph.rs name=inter_equal rules=setiter:sa ret=r
+//@contract
+    requires s1@.no_duplicates(), s2@.no_duplicates(), s3@.no_duplicates(), s1@.len() < 0x8000_0000, s2@.len() < 0x8000_0000,
+    ensures r == is_inter(s1@, s2@, s3@),
+//@pre
+    let ghost gsa = if s1@.len() < s2@.len() { s1@ } else { s2@ };
+    let ghost gsb = if s1@.len() < s2@.len() { s2@ } else { s1@ };
+    proof { assert(is_inter(s1@, s2@, s3@) <==> is_inter(gsa, gsb, s3@)); }
+//@before "for e in sa.iter()"
+    proof { assert(sa@ == gsa && sb@ == gsb); }
+//@before "return false;" #1
+        proof { if is_inter(gsa, gsb, s3@) { lemma_is_inter_len(gsa, gsb, s3@); } }
+//@iter 1
+it
+//@loop 1
+        invariant
+            it.seq().len() == sa@.len(), forall|k: int| 0 <= k < sa@.len() ==> *(#[trigger] it.seq()[k]) == sa@[k],
+            sa@ == gsa, sb@ == gsb, sa@.no_duplicates(), sb@.no_duplicates(), s3@.no_duplicates(), sa@.len() <= sb@.len(), sa@.len() + sb@.len() < 0x1_0000_0000, len_s3 == s3@.len(),
+            is_inter(s1@, s2@, s3@) <==> is_inter(sa@, sb@, s3@),
+            dim == inter_k(sa@, sb@, it.index@ as int).len(), dim <= len_s3, max_intersect == sa@.len() + sb@.len() - it.index@,
+            forall|j: int| 0 <= j < inter_k(sa@, sb@, it.index@ as int).len() ==> s3@.contains(#[trigger] inter_k(sa@, sb@, it.index@ as int)[j]),
+//@body_start 1
+        let ghost gi = it.index@ as int;
+        proof { assert(*e == sa@[gi]); lemma_inter_k(sa@, sb@, gi); }
+//@before "return false;" #2
+                proof {
+                    if is_inter(sa@, sb@, s3@) { lemma_is_inter_len(sa@, sb@, s3@); lemma_inter_k_mono(sa@, sb@, gi + 1, sa@.len() as int); }
+                }
+//@before "return false;" #3
+                proof { if is_inter(sa@, sb@, s3@) { assert(sa@.contains(sa@[gi])); assert(s3@.contains(*e)); } }
+//@before "return false;" #4
+            proof { if is_inter(sa@, sb@, s3@) { lemma_is_inter_len(sa@, sb@, s3@); } }
+//@body_end 1
+        proof {
+            let cur = inter_k(sa@, sb@, gi + 1); let prev = inter_k(sa@, sb@, gi);
+            assert forall|j: int| 0 <= j < cur.len() implies s3@.contains(#[trigger] cur[j]) by { if j < prev.len() { assert(cur[j] == prev[j]); } }
+        }
+//@post
+    proof {
+        let it_ = inter(gsa, gsb);
+        lemma_inter_members(gsa, gsb);
+        if r_v {
+            assert forall|i: int| 0 <= i < it_.len() implies s3@.contains(#[trigger] it_[i]) by { }
+            lemma_full_subset(it_, s3@);
+            assert forall|x: usize| #[trigger] s3@.contains(x) <==> gsa.contains(x) && gsb.contains(x) by {
+                if s3@.contains(x) { let j = choose|j: int| 0 <= j < s3@.len() && s3@[j] == x; assert(it_.contains(s3@[j])); }
+                if gsa.contains(x) && gsb.contains(x) { assert(it_.contains(x)); let i = choose|i: int| 0 <= i < it_.len() && it_[i] == x; assert(s3@.contains(it_[i])); }
+            }
+        } else {
+            if is_inter(gsa, gsb, s3@) { lemma_is_inter_len(gsa, gsb, s3@); }
+        }
+    }
+//@end
+
+// Check whether the `pair` of cliques are in different `components`
+//@fn file=src/solver/chordal/merge/clique_graph.rs name=is_unconnected rules=posfirst ret=r
+//@contract
+    requires exists|j: int| 0 <= j < components@.len() && (#[trigger] components@[j])@.contains(pair.0),      // `position(..).unwrap()`
+    ensures
+        // true iff the FIRST component that lists pair.0 does not list pair.1
+        exists|j: int| 0 <= j < components@.len() && is_first_with(components@, pair.0, j) && r == !(#[trigger] components@[j])@.contains(pair.1),
+//@pre
+    proof { assert(components@.len() == components.len()); }
+//@iter 1
+it
+//@loop 1
+        invariant
+            it.seq().len() == components@.len(), forall|k: int| 0 <= k < components@.len() ==> *(#[trigger] it.seq()[k]) == components@[k],
+            pf_i1 == it.index@, components@.len() <= usize::MAX,
+            match pf_r1 { Some(j) => is_first_with(components@, pair.0, j as int), None => forall|y: int| 0 <= y < it.index@ ==> !(#[trigger] components@[y])@.contains(pair.0) },
+//@body_start 1
+        proof { assert(*x == components@[it.index@ as int]); }
+//@end
+
+// ---- the separator graph H (hash table clique -> list of cliques) ----
+pub type HG = Map<usize, Vec<usize>>;
+pub open spec fn hedge(H: HG, a: usize, b: usize) -> bool { H.contains_key(a) && H[a]@.contains(b) }
+// every listed neighbour is itself a key
+pub open spec fn h_closed(H: HG) -> bool { forall|a: usize, b: usize| #[trigger] hedge(H, a, b) ==> H.contains_key(b) }
+pub open spec fn sets_ok(snd: Seq<VertexSet>) -> bool { forall|c: int| 0 <= c < snd.len() ==> (#[trigger] snd[c])@.no_duplicates() && snd[c]@.len() < 0x8000_0000 }
+// the pair of positions (i2, j2) has been looked at when the loops stand at (i, j)
+pub open spec fn pair_done(i: int, j: int, i2: int, j2: int) -> bool { 0 <= i2 < j2 && (i2 < i || (i2 == i && j2 < j)) }
+pub proof fn lemma_push_contains(v: Seq<usize>, x: usize, y: usize)
+    ensures v.push(x).contains(y) <==> v.contains(y) || y == x,
+{
+    let w = v.push(x);
+    if w.contains(y) { let j = choose|j: int| 0 <= j < w.len() && w[j] == y; if j < v.len() { assert(v[j] == y); } }
+    if v.contains(y) { let j = choose|j: int| 0 <= j < v.len() && v[j] == y; assert(w[j] == y); }
+    if y == x { assert(w[v.len() as int] == y); }
+}
+// Find the separator graph H given a separator and the relevant index-subset of cliques: a and b are joined iff their intersection is
+// NOT the separator (i.e. larger: both contain it)
+//@fn file=src/solver/chordal/merge/clique_graph.rs name=separator_graph ret=r
+//@contract
+    requires sets_ok(snd@), separator@.no_duplicates(), forall|i: int| 0 <= i < clique_ind@.len() ==> #[trigger] clique_ind@[i] < snd@.len(),
+    ensures
+        forall|a: usize| #[trigger] r@.contains_key(a) <==> clique_ind@.contains(a),
+        h_closed(r@),
+        // an edge joins two listed cliques whose intersection is not the separator ...
+        forall|a: usize, b: usize| #[trigger] hedge(r@, a, b) ==> clique_ind@.contains(a) && clique_ind@.contains(b) && !is_inter(snd@[a as int]@, snd@[b as int]@, separator@),
+        // ... and every such pair is joined, in both directions
+        forall|i: int, j: int| 0 <= i < j < clique_ind@.len() && !is_inter(snd@[clique_ind@[i] as int]@, snd@[clique_ind@[j] as int]@, separator@) ==>
+            #[trigger] hedge(r@, clique_ind@[i], clique_ind@[j]) && hedge(r@, clique_ind@[j], clique_ind@[i]),
+//@pre
+    let ghost ci = clique_ind@;
+    proof { assert(clique_ind@.len() == clique_ind.len()); }
+//@loop 1
+        invariant
+            nindex == ci.len(), ci == clique_ind@, sets_ok(snd@), separator@.no_duplicates(), forall|i: int| 0 <= i < ci.len() ==> #[trigger] ci[i] < snd@.len(),
+            sg_inv(H@, ci, snd@, separator@, $var1 as int, $var1 as int + 1),
+//@loop 2
+            invariant
+                nindex == ci.len(), ci == clique_ind@, sets_ok(snd@), separator@.no_duplicates(), forall|i: int| 0 <= i < ci.len() ==> #[trigger] ci[i] < snd@.len(),
+                $var1 < nindex, sg_inv(H@, ci, snd@, separator@, $var1 as int, $var2 as int),
+//@body_start 2
+            let ghost Hb = H@;
+            let ghost mut H1 = H@;
+            let ghost gi = $var1 as int;
+            let ghost gj = $var2 as int;
+            proof { assert(ci[gi] < snd@.len() && ci[gj] < snd@.len()); assert(snd@[ci[gi] as int]@.no_duplicates() && snd@[ci[gj] as int]@.no_duplicates()); }
+//@before "if H.contains_key(cb)"
+                proof {
+                    H1 = H@;
+                    assert forall|a: usize, b: usize| #[trigger] hedge(H1, a, b) <==> hedge(Hb, a, b) || (a == *ca && b == *cb) by {
+                        if Hb.contains_key(*ca) { lemma_push_contains(Hb[*ca]@, *cb, b); if a != *ca && H1.contains_key(a) { assert(H1[a] == Hb[a]); } }
+                        else { assert(H1[*ca]@ == seq![*cb]); if a == *ca { assert(seq![*cb][0] == *cb); } else if H1.contains_key(a) { assert(H1[a] == Hb[a]); } }
+                    }
+                    assert forall|a: usize| #[trigger] H1.contains_key(a) <==> Hb.contains_key(a) || a == *ca by { }
+                }
+//@body_end 2
+            proof {
+                let H2 = H@; let a_ = ci[gi]; let b_ = ci[gj];
+                let cond = !is_inter(snd@[a_ as int]@, snd@[b_ as int]@, separator@);
+                assert(is_inter(snd@[b_ as int]@, snd@[a_ as int]@, separator@) == is_inter(snd@[a_ as int]@, snd@[b_ as int]@, separator@));
+                if cond {
+                    assert forall|a: usize, b: usize| #[trigger] hedge(H2, a, b) <==> hedge(H1, a, b) || (a == b_ && b == a_) by {
+                        if H1.contains_key(b_) { lemma_push_contains(H1[b_]@, a_, b); if a != b_ && H2.contains_key(a) { assert(H2[a] == H1[a]); } }
+                        else { assert(H2[b_]@ == seq![a_]); if a == b_ { assert(seq![a_][0] == a_); } else if H2.contains_key(a) { assert(H2[a] == H1[a]); } }
+                    }
+                    assert forall|a: usize, b: usize| #[trigger] hedge(H2, a, b) <==> hedge(Hb, a, b) || (a == a_ && b == b_) || (a == b_ && b == a_) by {
+                        assert(hedge(H1, a, b) <==> hedge(Hb, a, b) || (a == a_ && b == b_));
+                    }
+                    assert forall|a: usize| #[trigger] H2.contains_key(a) <==> Hb.contains_key(a) || a == a_ || a == b_ by { assert(H1.contains_key(a) <==> Hb.contains_key(a) || a == a_); }
+                }
+                assert(sg_inv(H2, ci, snd@, separator@, gi, gj + 1)) by {
+                    assert(ci.contains(a_) && ci.contains(b_));
+                    assert forall|i2: int, j2: int| #[trigger] pair_done(gi, gj + 1, i2, j2) && j2 < ci.len() && !is_inter(snd@[ci[i2] as int]@, snd@[ci[j2] as int]@, separator@) implies
+                        hedge(H2, ci[i2], ci[j2]) && hedge(H2, ci[j2], ci[i2]) by {
+                        if pair_done(gi, gj, i2, j2) { assert(hedge(Hb, ci[i2], ci[j2]) && hedge(Hb, ci[j2], ci[i2])); }
+                    }
+                }
+            }
+//@body_end 1
+        proof {
+            assert(sg_inv(H@, ci, snd@, separator@, $var1 as int + 1, $var1 as int + 2)) by {
+                assert forall|i2: int, j2: int| #[trigger] pair_done($var1 as int + 1, $var1 as int + 2, i2, j2) && j2 < ci.len() implies pair_done($var1 as int, nindex as int, i2, j2) by { }
+            }
+        }
+//@iter 3
+it3
+//@loop 3
+        invariant
+            it3.seq().len() == ci.len(), forall|k: int| 0 <= k < ci.len() ==> *(#[trigger] it3.seq()[k]) == ci[k], ci == clique_ind@,
+            sg_inv(H@, ci, snd@, separator@, ci.len() as int, ci.len() as int + 1),
+            forall|k: int| 0 <= k < it3.index@ ==> H@.contains_key(#[trigger] ci[k]),
+//@body_start 3
+        let ghost Hb = H@;
+        proof { assert(*v == ci[it3.index@ as int]); assert(ci.contains(*v)); }
+//@body_end 3
+        proof {
+            let H2 = H@;
+            assert forall|a: usize, b: usize| #[trigger] hedge(H2, a, b) <==> hedge(Hb, a, b) by { if H2.contains_key(a) && a != *v { assert(H2[a] == Hb[a]); } if a == *v && !Hb.contains_key(*v) { assert(H2[a]@ == Seq::<usize>::empty()); } }
+            assert forall|i2: int, j2: int| #[trigger] pair_done(ci.len() as int, ci.len() as int + 1, i2, j2) && j2 < ci.len() && !is_inter(snd@[ci[i2] as int]@, snd@[ci[j2] as int]@, separator@) implies
+                hedge(H2, ci[i2], ci[j2]) && hedge(H2, ci[j2], ci[i2]) by { assert(hedge(Hb, ci[i2], ci[j2]) && hedge(Hb, ci[j2], ci[i2])); }
+        }
+//@post
+    proof {
+        let H = r_v@;
+        assert forall|a: usize| #[trigger] H.contains_key(a) <==> ci.contains(a) by { if ci.contains(a) { let k = choose|k: int| 0 <= k < ci.len() && ci[k] == a; assert(H.contains_key(ci[k])); } }
+        assert forall|i: int, j: int| 0 <= i < j < ci.len() && !is_inter(snd@[ci[i] as int]@, snd@[ci[j] as int]@, separator@) implies #[trigger] hedge(H, ci[i], ci[j]) && hedge(H, ci[j], ci[i]) by {
+            assert(pair_done(ci.len() as int, ci.len() as int + 1, i, j));
+        }
+    }
+//@end
+pub open spec fn sg_inv(H: HG, ci: Seq<usize>, snd: Seq<VertexSet>, sep: Seq<usize>, i: int, j: int) -> bool {
+    &&& forall|a: usize| #[trigger] H.contains_key(a) ==> ci.contains(a)
+    &&& forall|a: usize, b: usize| #[trigger] hedge(H, a, b) ==> ci.contains(a) && ci.contains(b) && H.contains_key(b) && !is_inter(snd[a as int]@, snd[b as int]@, sep)
+    &&& forall|i2: int, j2: int| #[trigger] pair_done(i, j, i2, j2) && j2 < ci.len() && !is_inter(snd[ci[i2] as int]@, snd[ci[j2] as int]@, sep) ==> hedge(H, ci[i2], ci[j2]) && hedge(H, ci[j2], ci[i2])
+}
+
+// Depth first search on the hash table H.  PARTIAL CORRECTNESS ONLY (no termination measure: the number of unvisited keys decreases with
+// every call, counting over a hash table is not done here)
+pub type VIS = Map<usize, bool>;
+pub open spec fn vis_true(V: VIS, k: usize) -> bool { V.contains_key(k) && V[k] }
+//@fn file=src/solver/chordal/merge/clique_graph.rs name=DFS_hashtable attrs="#[verifier::exec_allows_no_decreases_clause]"
+//@contract
+    requires
+        h_closed(H@), H@.contains_key(v),                                             // `H.get(&v).unwrap()`
+        forall|k: usize| #[trigger] old(visited)@.contains_key(k) <==> H@.contains_key(k),    // `visited.get(n).unwrap()`
+    ensures
+        forall|k: usize| #[trigger] final(visited)@.contains_key(k) <==> H@.contains_key(k),
+        // v is put into the component; whatever becomes visited is put into the component; the component only grows, by keys of H
+        final(component)@.contains(v), vis_true(final(visited)@, v),
+        forall|k: usize| #[trigger] vis_true(final(visited)@, k) ==> vis_true(old(visited)@, k) || final(component)@.contains(k),
+        forall|k: usize| vis_true(old(visited)@, k) ==> #[trigger] vis_true(final(visited)@, k),
+        forall|x: usize| old(component)@.contains(x) ==> #[trigger] final(component)@.contains(x),
+        forall|x: usize| #[trigger] final(component)@.contains(x) ==> old(component)@.contains(x) || H@.contains_key(x),
+//@pre
+    let ghost V0 = visited@;
+    let ghost C0 = component@;
+    proof { lemma_ins1(C0, v); }
+//@before_loop 1
+    let ghost nbv = H@[v]@;
+    proof {
+        assert forall|i: int| 0 <= i < nbv.len() implies H@.contains_key(#[trigger] nbv[i]) by { assert(hedge(H@, v, nbv[i])); }
+        assert(component@ == ins1(C0, v));
+        assert forall|k: usize| #[trigger] vis_true(visited@, k) implies vis_true(V0, k) || component@.contains(k) by { if k != v { assert(visited@[k] == V0[k]); } }
+    }
+//@iter 1
+it
+//@loop 1
+        invariant
+            h_closed(H@), H@.contains_key(v), it.seq().len() == nbv.len(), forall|i: int| 0 <= i < nbv.len() ==> *(#[trigger] it.seq()[i]) == nbv[i],
+            forall|i: int| 0 <= i < nbv.len() ==> H@.contains_key(#[trigger] nbv[i]),
+            forall|k: usize| #[trigger] visited@.contains_key(k) <==> H@.contains_key(k),
+            component@.contains(v), vis_true(visited@, v),
+            forall|k: usize| #[trigger] vis_true(visited@, k) ==> vis_true(V0, k) || component@.contains(k),
+            forall|k: usize| vis_true(V0, k) ==> #[trigger] vis_true(visited@, k),
+            forall|x: usize| C0.contains(x) ==> #[trigger] component@.contains(x),
+            forall|x: usize| #[trigger] component@.contains(x) ==> C0.contains(x) || H@.contains_key(x),
+//@body_start 1
+        let ghost Vb = visited@;
+        let ghost Cb = component@;
+        proof { assert(*n == nbv[it.index@ as int]); }
+//@body_end 1
+        proof {
+            assert forall|k: usize| #[trigger] vis_true(visited@, k) implies vis_true(V0, k) || component@.contains(k) by { if vis_true(Vb, k) { if !vis_true(V0, k) { assert(Cb.contains(k)); } } }
+            assert forall|x: usize| C0.contains(x) implies #[trigger] component@.contains(x) by { assert(Cb.contains(x)); }
+            assert forall|x: usize| #[trigger] component@.contains(x) implies C0.contains(x) || H@.contains_key(x) by { if Cb.contains(x) { } }
+            assert(vis_true(Vb, v));
+            assert forall|k: usize| vis_true(V0, k) implies #[trigger] vis_true(visited@, k) by { assert(vis_true(Vb, k)); }
+        }
+//@end
+
+// Find connected components in the undirected separator graph `H`
+//@fn file=src/solver/chordal/merge/clique_graph.rs name=find_components ret=r
+//@contract
+    requires h_closed(H@), forall|a: usize| #[trigger] H@.contains_key(a) <==> clique_ind@.contains(a),
+    ensures
+        // every listed clique lies in some component (=> the `position(..).unwrap()` of is_unconnected), components hold listed cliques only
+        forall|i: int| 0 <= i < clique_ind@.len() ==> in_some(r@, #[trigger] clique_ind@[i]),
+        forall|j: int, x: usize| 0 <= j < r@.len() && #[trigger] r@[j]@.contains(x) ==> clique_ind@.contains(x),
+//@pre
+    let ghost ci = clique_ind@;
+//@iter 1
+it1
+//@loop 1
+        invariant
+            it1.seq().len() == ci.len(), forall|k: int| 0 <= k < ci.len() ==> *(#[trigger] it1.seq()[k]) == ci[k],
+            forall|k: usize| #[trigger] visited@.contains_key(k) <==> in_pre(ci, it1.index@ as int, k), forall|k: usize| !#[trigger] vis_true(visited@, k),
+//@body_start 1
+        let ghost gi = it1.index@ as int;
+        let ghost Vb = visited@;
+        proof { assert(*v == ci[gi]); }
+//@body_end 1
+        proof {
+            assert forall|k: usize| #[trigger] visited@.contains_key(k) <==> in_pre(ci, gi + 1, k) by { lemma_in_pre_step(ci, gi, k); }
+            assert forall|k: usize| !#[trigger] vis_true(visited@, k) by { if k != ci[gi] { assert(!vis_true(Vb, k)); } }
+        }
+//@before_loop 2
+    proof { assert forall|k: usize| #[trigger] visited@.contains_key(k) <==> H@.contains_key(k) by { lemma_in_pre_full(ci, k); } }
+//@iter 2
+it2
+//@loop 2
+        invariant
+            ci == clique_ind@, h_closed(H@), forall|a: usize| #[trigger] H@.contains_key(a) <==> ci.contains(a),
+            it2.seq().len() == ci.len(), forall|k: int| 0 <= k < ci.len() ==> *(#[trigger] it2.seq()[k]) == ci[k],
+            forall|k: usize| #[trigger] visited@.contains_key(k) <==> H@.contains_key(k),
+            forall|k: usize| #[trigger] vis_true(visited@, k) ==> in_some(components@, k),
+            forall|i: int| 0 <= i < it2.index@ ==> in_some(components@, #[trigger] ci[i]),
+            forall|j: int, x: usize| 0 <= j < components@.len() && #[trigger] components@[j]@.contains(x) ==> ci.contains(x),
+//@body_start 2
+        let ghost gi = it2.index@ as int;
+        let ghost Vb = visited@;
+        let ghost Cb = components@;
+        proof { assert(*v == ci[gi]); assert(ci.contains(ci[gi])); }
+//@body_end 2
+        proof {
+            let Cn = components@;
+            if Cn.len() == Cb.len() { assert(Cn == Cb); assert(vis_true(Vb, ci[gi])); }
+            else {
+                let L = Cb.len() as int;
+                assert forall|k: usize| in_some(Cb, k) implies in_some(Cn, k) by { let j = choose|j: int| 0 <= j < Cb.len() && (#[trigger] Cb[j])@.contains(k); assert(Cn[j] == Cb[j]); }
+                assert forall|k: usize| #[trigger] vis_true(visited@, k) implies in_some(Cn, k) by { if !vis_true(Vb, k) { assert(Cn[L]@.contains(k)); } }
+                assert(in_some(Cn, ci[gi])) by { assert(Cn[L]@.contains(ci[gi])); }
+                assert forall|i: int| 0 <= i < gi + 1 implies in_some(Cn, #[trigger] ci[i]) by { if i < gi { assert(in_some(Cb, ci[i])); } }
+                assert forall|j: int, x: usize| 0 <= j < Cn.len() && #[trigger] Cn[j]@.contains(x) implies ci.contains(x) by { if j < L { assert(Cn[j] == Cb[j]); } }
+            }
+        }
+//@post
+    proof { assert forall|i: int| 0 <= i < ci.len() implies in_some(r_v@, #[trigger] ci[i]) by { } }
+//@end
+pub open spec fn in_some(comps: Seq<VertexSet>, k: usize) -> bool { exists|j: int| 0 <= j < comps.len() && (#[trigger] comps[j])@.contains(k) }
+
+pub open spec fn is_one_of(x: Seq<usize>, sets: Seq<VertexSet>) -> bool { exists|j: int| 0 <= j < sets.len() && (#[trigger] sets[j])@ == x }
+// `separators.sort_by_key(|b| Reverse(b.len()))` (rule sortlenrev): ASSUMED std sort - a permutation with non-increasing lengths
+#[verifier::external_body]
+pub fn sort_sets_by_len_rev(s: &mut [VertexSet])
+    ensures
+        final(s)@.len() == old(s)@.len(),
+        forall|i: int| 0 <= i < old(s)@.len() ==> is_one_of((#[trigger] final(s)@[i])@, old(s)@),
+        forall|j: int| 0 <= j < old(s)@.len() ==> is_one_of((#[trigger] old(s)@[j])@, final(s)@),
+        forall|i: int, j: int| 0 <= i <= j < old(s)@.len() ==> final(s)@[i]@.len() >= final(s)@[j]@.len(),
+{ unimplemented!() }
+// (typed view: `let mut rows = Vec::new();` leaves the element type to inference, which annotations placed before the first push cannot rely on)
+pub open spec fn vu(v: Vec<usize>) -> Seq<usize> { v@ }
+// the edge (rows[k], cols[k]) joins two different cliques that both contain one of the separators
+pub open spec fn rcg_edge(seps: Seq<VertexSet>, snode: Seq<VertexSet>, r: usize, c: usize) -> bool {
+    c < r && r < snode.len() && exists|q: int| 0 <= q < seps.len() && subset((#[trigger] seps[q])@, snode[r as int]@) && subset(seps[q]@, snode[c as int]@)
+}
+// Compute the reduced clique graph (union of all clique trees) given an initial clique tree defined by its supernodes and separator sets
+//@fn file=src/solver/chordal/merge/clique_graph.rs name=compute_reduced_clique_graph rules=sortlenrev,posall,zipidx:1=m,R18 ret=r
+//@contract
+    requires sets_ok(snode@), forall|q: int| 0 <= q < old(separators)@.len() ==> (#[trigger] old(separators)@[q])@.no_duplicates(),
+    ensures
+        // the separators are only re-ordered (by decreasing cardinality)
+        final(separators)@.len() == old(separators)@.len(),
+        forall|i: int| 0 <= i < old(separators)@.len() ==> is_one_of((#[trigger] final(separators)@[i])@, old(separators)@),
+        // one (row, col) pair per edge, row > col: two different cliques containing a common separator.  (NOT stated: that the two lie in
+        // different components of the separator graph - the components are characterised only as far as is_unconnected needs them)
+        r.0@.len() == r.1@.len(), forall|k: int| 0 <= k < r.0@.len() ==> r.1@[k] < #[trigger] r.0@[k] && r.0@[k] < snode@.len(),
+        forall|k: int| 0 <= k < r.0@.len() ==> rcg_edge(final(separators)@, snode@, #[trigger] r.0@[k], r.1@[k]),
+//@pre
+    let ghost sp0 = separators@;
+    let ghost mut sp1 = separators@;
+//@after "sort_sets_by_len_rev(separators);"
+    proof {
+        sp1 = separators@; assert(snode@.len() == snode.len());
+        assert forall|q: int| 0 <= q < sp1.len() implies (#[trigger] sp1[q])@.no_duplicates() by { assert(is_one_of(sp1[q]@, sp0)); let j = choose|j: int| 0 <= j < sp0.len() && (#[trigger] sp0[j])@ == sp1[q]@; assert(sp0[j]@.no_duplicates()); }
+    }
+//@loop 1
+        invariant
+            r14_n1 == sp1.len(), separators@ == sp1, sets_ok(snode@), forall|q: int| 0 <= q < sp1.len() ==> (#[trigger] sp1[q])@.no_duplicates(), snode@.len() <= usize::MAX,
+            sp1.len() == sp0.len(), forall|i: int| 0 <= i < sp1.len() ==> is_one_of((#[trigger] sp1[i])@, sp0),
+            vu(rows).len() == vu(cols).len(), forall|k: int| 0 <= k < vu(rows).len() ==> vu(cols)[k] < #[trigger] vu(rows)[k] && vu(rows)[k] < snode@.len(),
+            forall|k: int| 0 <= k < vu(rows).len() ==> rcg_edge(sp1, snode@, #[trigger] vu(rows)[k], vu(cols)[k]),
+//@body_start 1
+        let ghost gq = $var1 as int;
+//@iter 2
+it2
+//@loop 2
+            invariant
+                it2.seq().len() == snode@.len(), forall|c: int| 0 <= c < snode@.len() ==> *(#[trigger] it2.seq()[c]) == snode@[c], snode@.len() <= usize::MAX,
+                pa_i1 == it2.index@, 0 <= gq < sp1.len(), separator@ == sp1[gq]@,
+                forall|i: int| 0 <= i < pa_out1@.len() ==> #[trigger] pa_out1@[i] < it2.index@ && subset(sp1[gq]@, snode@[pa_out1@[i] as int]@),
+                forall|i: int, j: int| 0 <= i < j < pa_out1@.len() ==> pa_out1@[i] < pa_out1@[j],
+//@body_start 2
+            let ghost po_b = pa_out1@;
+            proof { assert(*x == snode@[it2.index@ as int]); }
+//@body_end 2
+            proof {
+                assert forall|i: int| 0 <= i < pa_out1@.len() implies #[trigger] pa_out1@[i] < it2.index@ + 1 && subset(sp1[gq]@, snode@[pa_out1@[i] as int]@) by { if i < po_b.len() { assert(pa_out1@[i] == po_b[i]); } }
+                assert forall|i: int, j: int| 0 <= i < j < pa_out1@.len() implies pa_out1@[i] < pa_out1@[j] by { if j < po_b.len() { assert(po_b[i] < po_b[j]); } else { assert(pa_out1@[i] == po_b[i]); } }
+            }
+//@before "let H = separator_graph("
+        let ghost ci = clique_indices@;
+        proof { assert forall|i: int| 0 <= i < ci.len() implies #[trigger] ci[i] < snode@.len() by { } }
+//@loop 3
+            invariant
+                ncliques == ci.len(), ci == clique_indices@, sets_ok(snode@), 0 <= gq < sp1.len(), snode@.len() <= usize::MAX,
+                forall|i: int| 0 <= i < ci.len() ==> #[trigger] ci[i] < snode@.len() && subset(sp1[gq]@, snode@[ci[i] as int]@),
+                forall|i: int, j: int| 0 <= i < j < ci.len() ==> ci[i] < ci[j],
+                forall|i: int| 0 <= i < ci.len() ==> in_some(components@, #[trigger] ci[i]),
+                vu(rows).len() == vu(cols).len(), forall|k: int| 0 <= k < vu(rows).len() ==> vu(cols)[k] < #[trigger] vu(rows)[k] && vu(rows)[k] < snode@.len(),
+                forall|k: int| 0 <= k < vu(rows).len() ==> rcg_edge(sp1, snode@, #[trigger] vu(rows)[k], vu(cols)[k]),
+//@loop 4
+                invariant
+                    ncliques == ci.len(), ci == clique_indices@, sets_ok(snode@), 0 <= gq < sp1.len(), $var3 < ncliques, snode@.len() <= usize::MAX,
+                    forall|i: int| 0 <= i < ci.len() ==> #[trigger] ci[i] < snode@.len() && subset(sp1[gq]@, snode@[ci[i] as int]@),
+                    forall|i: int, j: int| 0 <= i < j < ci.len() ==> ci[i] < ci[j],
+                    forall|i: int| 0 <= i < ci.len() ==> in_some(components@, #[trigger] ci[i]),
+                    vu(rows).len() == vu(cols).len(), forall|k: int| 0 <= k < vu(rows).len() ==> vu(cols)[k] < #[trigger] vu(rows)[k] && vu(rows)[k] < snode@.len(),
+                    forall|k: int| 0 <= k < vu(rows).len() ==> rcg_edge(sp1, snode@, #[trigger] vu(rows)[k], vu(cols)[k]),
+//@body_start 4
+                let ghost rw_b = vu(rows);
+                let ghost cl_b = vu(cols);
+                proof { assert(ci[$var3 as int] < ci[$var4 as int]); assert(ci[$var3 as int] < snode@.len() && ci[$var4 as int] < snode@.len()); assert(in_some(components@, ci[$var3 as int])); }
+//@body_end 4
+                proof {
+                    if vu(rows).len() != rw_b.len() {
+                        let L = rw_b.len() as int;
+                        assert(vu(rows) == rw_b.push(ci[$var4 as int]) && vu(cols) == cl_b.push(ci[$var3 as int]));
+                        assert(rcg_edge(sp1, snode@, ci[$var4 as int], ci[$var3 as int])) by {
+                            assert(subset(sp1[gq]@, snode@[ci[$var4 as int] as int]@) && subset(sp1[gq]@, snode@[ci[$var3 as int] as int]@));
+                        }
+                        assert forall|k: int| 0 <= k < vu(rows).len() implies vu(cols)[k] < #[trigger] vu(rows)[k] && vu(rows)[k] < snode@.len() by { if k < L { assert(vu(rows)[k] == rw_b[k] && vu(cols)[k] == cl_b[k]); } }
+                        assert forall|k: int| 0 <= k < vu(rows).len() implies rcg_edge(sp1, snode@, #[trigger] vu(rows)[k], vu(cols)[k]) by { if k < L { assert(vu(rows)[k] == rw_b[k] && vu(cols)[k] == cl_b[k]); assert(rcg_edge(sp1, snode@, rw_b[k], cl_b[k])); } }
+                    }
+                }
 //@end
 } // verus!
 fn main() {}
